@@ -129,8 +129,13 @@ pub fn property() -> Property {
             "the reference interpreter (harness/src/model.rs) is the trusted statement of the documented semantics",
             "generated programs stay inside the documented ELSE forms; jump targets are integers below 2^53",
         ],
+        fuzz: None,
         families,
-        prelude: None,
+        prelude: Some(Box::new(|_, rec| {
+            let n = crate::selftest::run()?;
+            rec.set_extra("model_selftest_programs", serde_json::json!(n));
+            Ok(vec![])
+        })),
         epilogue: None,
     }
 }
